@@ -642,11 +642,58 @@ func ruleR29(c *Ctx) {
 			continue
 		}
 		in := info(f)
+		// a field counts as searched when it is what FindBy is called on (x.F.FindBy, x.F[i].FindBy), what a loop
+		// that calls FindBy ranges / indexes over, or an argument handed to a helper — a mere nil test of the
+		// field does not search it
 		used := map[*types.Var]bool{}
+		mark := func(n ast.Node) {
+			ast.Inspect(n, func(z ast.Node) bool {
+				if sel, ok := z.(*ast.SelectorExpr); ok {
+					if s, ok := in.Selections[sel]; ok && s.Kind() == types.FieldVal {
+						used[s.Obj().(*types.Var)] = true
+					}
+				}
+				return true
+			})
+		}
+		callsFindBy := func(n ast.Node) bool {
+			found := false
+			ast.Inspect(n, func(z ast.Node) bool {
+				if cl, ok := z.(*ast.CallExpr); ok {
+					if s, ok := unparen(cl.Fun).(*ast.SelectorExpr); ok && s.Sel.Name == "FindBy" {
+						found = true
+					}
+				}
+				return !found
+			})
+			return found
+		}
 		inspectNoLit(f.Body, func(m ast.Node) bool {
-			if sel, ok := m.(*ast.SelectorExpr); ok {
-				if s, ok := in.Selections[sel]; ok && s.Kind() == types.FieldVal {
-					used[s.Obj().(*types.Var)] = true
+			switch x := m.(type) {
+			case *ast.CallExpr:
+				if s, ok := unparen(x.Fun).(*ast.SelectorExpr); ok && s.Sel.Name == "FindBy" {
+					mark(s.X)
+					// `if value := t.F; value != nil { value.FindBy(f) }`: the local stands for the field
+					if id := rootIdent(s.X); id != nil {
+						if o := objOf(in, id); o != nil {
+							defs, _ := localDefs(in, f.Body, o)
+							for _, d := range defs {
+								mark(d)
+							}
+						}
+					}
+				} else {
+					for _, a := range x.Args {
+						mark(a)
+					}
+				}
+			case *ast.RangeStmt:
+				if callsFindBy(x.Body) {
+					mark(x.X)
+				}
+			case *ast.ForStmt:
+				if callsFindBy(x.Body) && x.Cond != nil {
+					mark(x.Cond)
 				}
 			}
 			return true
